@@ -493,6 +493,7 @@ package node_info
 //@   ensures [relGpus] result == nil && task.ResourceReceivedType != "Fraction" ==> ni.Releasing.gpus == old(ni.Releasing.gpus) + relPart(task, nodeChargedGpus(task))
 //@   ensures [accepted] pod_status.IsActiveUsedStatus(task.Status) ==> task.AcceptedResource.milliCpu == task.ResReq.milliCpu && task.AcceptedResource.memory == task.ResReq.memory && (forall k v1.ResourceName :: task.AcceptedResource.scalarResources[k] == old(task.ResReq.scalarResources[k]))
 //@   ensures [separate] taskSeparate(ni, task)   // added by helper "cache"
+//@   ensures [acceptedOwn] task.AcceptedResource == old(task.AcceptedResource) || acceptedFresh(task)   // added by helper "cache"
 //@   ensures [keyRecorded] pod_info.podKeyOf(task.Pod) in ni.PodInfos   // added by helper "cache": also when the call fails the pod is (still) recorded
 //@   ensures nodeWF(ni) && podsWF(ni) && taskWF(task)
 //@ end
@@ -514,6 +515,7 @@ package node_info
 //@   ensures [relGpus] result == nil && task.ResourceReceivedType != "Fraction" ==> ni.Releasing.gpus == old(ni.Releasing.gpus) + relPart(task, nodeChargedGpus(task))
 //@   ensures [accepted] pod_status.IsActiveUsedStatus(task.Status) ==> task.AcceptedResource.milliCpu == task.ResReq.milliCpu && task.AcceptedResource.memory == task.ResReq.memory && (forall k v1.ResourceName :: task.AcceptedResource.scalarResources[k] == old(task.ResReq.scalarResources[k]))
 //@   ensures [separate] taskSeparate(ni, task)   // added by helper "cache"
+//@   ensures [acceptedOwn] task.AcceptedResource == old(task.AcceptedResource) || acceptedFresh(task)   // added by helper "cache"
 //@   ensures [keyRecorded] pod_info.podKeyOf(task.Pod) in ni.PodInfos   // added by helper "cache": also when the call fails the pod is (still) recorded
 //@   ensures nodeWF(ni) && podsWF(ni) && taskWF(task)
 //@ end
@@ -613,6 +615,8 @@ package node_info
 //@   ensures [podsWF] result.PodInfos != nil && fresh(result.PodInfos) && result.LegacyMIGTasks != nil && fresh(result.LegacyMIGTasks)
 //@ end
 
+// the accepted-resources object of the task was made by this call: new object, new scalar map, MIG map nil / the request's / new
+//@ define acceptedFresh(t *pod_info.PodInfo) bool = fresh(t.AcceptedResource) && t.AcceptedResource.scalarResources != nil && fresh(t.AcceptedResource.scalarResources) && (t.AcceptedResource.migResources == nil || t.AcceptedResource.migResources == t.ResReq.migResources || fresh(t.AcceptedResource.migResources))
 // the accounting of the node did not move (cpu, memory, whole GPUs, every scalar resource incl. presence in Idle)
 //@ define acctUntouched(ni *NodeInfo) bool = ni.Used.milliCpu == old(ni.Used.milliCpu) && ni.Used.memory == old(ni.Used.memory) && ni.Used.gpus == old(ni.Used.gpus) && ni.Idle.milliCpu == old(ni.Idle.milliCpu) && ni.Idle.memory == old(ni.Idle.memory) && ni.Idle.gpus == old(ni.Idle.gpus) && ni.Releasing.milliCpu == old(ni.Releasing.milliCpu) && ni.Releasing.memory == old(ni.Releasing.memory) && ni.Releasing.gpus == old(ni.Releasing.gpus)
 //@ define acctScalarsUntouched(ni *NodeInfo) bool = forall k v1.ResourceName :: ni.Used.scalarResources[k] == old(ni.Used.scalarResources[k]) && ni.Idle.scalarResources[k] == old(ni.Idle.scalarResources[k]) && ni.Releasing.scalarResources[k] == old(ni.Releasing.scalarResources[k]) && (k in ni.Idle.scalarResources <==> old(k in ni.Idle.scalarResources))
@@ -634,24 +638,20 @@ package node_info
 //@   loop 1
 //@     invariant 0 - 1 <= rangeindex && rangeindex < len(podInfos)
 //@     invariant nodeWF(ni) && podsWF(ni)
-//@     invariant tasksAddable(ni, podInfos, 0)
+//@     invariant forall t *pod_info.PodInfo :: t.AcceptedResource == old(t.AcceptedResource) || acceptedFresh(t)
 //@     invariant len(resultPods) == rangeindex + 1 && (forall i int :: 0 <= i && i <= rangeindex ==> resultPods[i] == podInfos[i].Pod)
-//@     invariant forall t *pod_info.PodInfo :: (forall i int :: 0 <= i && i < len(podInfos) ==> podInfos[i] != t) ==> t.AcceptedResource == old(t.AcceptedResource) && t.ResourceReceivedType == old(t.ResourceReceivedType)
 //@     invariant forall k common_info.PodID :: old(k in ni.PodInfos) ==> k in ni.PodInfos
 //@     invariant forall i int :: 0 <= i && i <= rangeindex && pod_status.inActiveUsed(podInfos[i].Status) ==> pod_info.podKeyOf(podInfos[i].Pod) in ni.PodInfos
 //@     invariant forall k common_info.PodID :: old(k in existingPodsMap) ==> k in existingPodsMap
 //@     invariant forall i int :: 0 <= i && i <= rangeindex ==> podInfos[i].UID in existingPodsMap && existingPodsMap[podInfos[i].UID] != nil && existingPodsMap[podInfos[i].UID].UID == podInfos[i].UID
-//@     invariant (exists i int :: 0 <= i && i <= rangeindex && pod_status.inActiveUsed(podInfos[i].Status)) || acctUntouched(ni)
-//@     invariant (exists i int :: 0 <= i && i <= rangeindex && pod_status.inActiveUsed(podInfos[i].Status)) || (forall k v1.ResourceName :: ni.Used.scalarResources[k] == old(ni.Used.scalarResources[k]))
-//@     invariant (exists i int :: 0 <= i && i <= rangeindex && pod_status.inActiveUsed(podInfos[i].Status)) || (forall k v1.ResourceName :: ni.Idle.scalarResources[k] == old(ni.Idle.scalarResources[k]) && (k in ni.Idle.scalarResources <==> old(k in ni.Idle.scalarResources)))
-//@     invariant (exists i int :: 0 <= i && i <= rangeindex && pod_status.inActiveUsed(podInfos[i].Status)) || (forall k v1.ResourceName :: ni.Releasing.scalarResources[k] == old(ni.Releasing.scalarResources[k]))
+//@     invariant (forall i int :: 0 <= i && i <= rangeindex ==> !pod_status.inActiveUsed(podInfos[i].Status)) ==> acctUntouched(ni)
+//@     invariant (forall i int :: 0 <= i && i <= rangeindex ==> !pod_status.inActiveUsed(podInfos[i].Status)) ==> acctScalarsUntouched(ni)
 //@   ensures [allReturned] len(resultPods) == len(podInfos) && (forall i int :: 0 <= i && i < len(podInfos) ==> resultPods[i] == podInfos[i].Pod)
 //@   ensures [occupyingPodsRecorded] forall i int :: 0 <= i && i < len(podInfos) && pod_status.inActiveUsed(podInfos[i].Status) ==> pod_info.podKeyOf(podInfos[i].Pod) in ni.PodInfos
-//@   ensures [othersNotCharged] (exists i int :: 0 <= i && i < len(podInfos) && pod_status.inActiveUsed(podInfos[i].Status)) || (acctUntouched(ni) && acctScalarsUntouched(ni))
+//@   ensures [othersNotCharged] (forall i int :: 0 <= i && i < len(podInfos) ==> !pod_status.inActiveUsed(podInfos[i].Status)) ==> acctUntouched(ni) && acctScalarsUntouched(ni)
 //@   ensures [registered] forall i int :: 0 <= i && i < len(podInfos) ==> podInfos[i].UID in existingPodsMap && existingPodsMap[podInfos[i].UID] != nil && existingPodsMap[podInfos[i].UID].UID == podInfos[i].UID
 //@   ensures [registeredKept] forall k common_info.PodID :: old(k in existingPodsMap) ==> k in existingPodsMap
 //@   ensures [recordedKept] forall k common_info.PodID :: old(k in ni.PodInfos) ==> k in ni.PodInfos
-//@   ensures [otherTasksKept] forall t *pod_info.PodInfo :: (forall i int :: 0 <= i && i < len(podInfos) ==> podInfos[i] != t) ==> t.AcceptedResource == old(t.AcceptedResource) && t.ResourceReceivedType == old(t.ResourceReceivedType)
-//@   ensures [tasksStillAddable] tasksAddable(ni, podInfos, 0)
+//@   ensures [acceptedKeptOrOwn] forall t *pod_info.PodInfo :: t.AcceptedResource == old(t.AcceptedResource) || acceptedFresh(t)
 //@   ensures [wf] nodeWF(ni) && podsWF(ni)
 //@ end
